@@ -599,6 +599,94 @@ def _lift_trig(f, x):
 _SHIMMED = []
 
 
+class SymBytes:
+    """what struct.pack returns when a value is symbolic: a sequence of units, each either one raw byte
+    (int) or a packed number ('num', format char, value).  Supports the concatenations the exporters
+    use (bytes + SymBytes, SymBytes + bytes, +=) and len()."""
+    __slots__ = ('units',)
+
+    def __init__(self, units):
+        self.units = units
+
+    @staticmethod
+    def _units(x):
+        if isinstance(x, SymBytes):
+            return x.units
+        if isinstance(x, (bytes, bytearray)):
+            return list(x)
+        raise TypeError("can't concat %s to bytes" % type(x).__name__)
+
+    def __add__(self, other):
+        return SymBytes(self.units + SymBytes._units(other))
+
+    def __radd__(self, other):
+        return SymBytes(SymBytes._units(other) + self.units)
+
+    def __len__(self):
+        import struct as _st
+        return sum(1 if isinstance(u, int) else _st.calcsize('<' + u[1]) for u in self.units)
+
+
+class StructShim:
+    """struct module for the symbolic run: packing concrete numbers is the real struct.pack, packing a
+    symbolic number yields SymBytes (exact value, the rounding to binary32 / binary64 is outside the claim)."""
+
+    def __init__(self):
+        import struct as _st
+        self._st = _st
+        self.error = _st.error
+        self.calcsize = _st.calcsize
+        self.unpack = _st.unpack
+
+    @staticmethod
+    def _chars(fmt):
+        out, num = [], ''
+        for ch in fmt:
+            if ch in '<>=!@':
+                continue
+            if ch.isdigit():
+                num += ch
+                continue
+            out += [ch] * (int(num) if num else 1)
+            num = ''
+        return out
+
+    def pack(self, fmt, *vals):
+        if not any(isinstance(v, (SymReal, SymBool)) for v in vals):
+            return self._st.pack(fmt, *vals)
+        chars = self._chars(fmt)
+        if len(chars) != len(vals) or any(c not in 'fdiIqQhHlL' for c in chars):
+            raise self._st.error('pack expected %d items for packing (got %d)' % (len(chars), len(vals)))
+        return SymBytes([('num', c, v) for c, v in zip(chars, vals)])
+
+
+def read_packed(blob, fmt):
+    """harness side: take the numbers of struct format `fmt` off the front of `blob` (bytes or SymBytes);
+    returns (values, rest)"""
+    import struct as _st
+    if isinstance(blob, (bytes, bytearray)):
+        n = _st.calcsize(fmt)
+        if len(blob) < n:
+            raise ValueError('short read')
+        return list(_st.unpack(fmt, bytes(blob[:n]))), blob[n:]
+    units = blob.units
+    vals, i = [], 0
+    for c in StructShim._chars(fmt):
+        if i < len(units) and not isinstance(units[i], int):
+            if units[i][1] != c:
+                raise ValueError('format char %s where %s expected' % (units[i][1], c))
+            vals.append(units[i][2])
+            i += 1
+        else:
+            n = _st.calcsize('<' + c)
+            raw = units[i:i + n]
+            if len(raw) < n or not all(isinstance(b, int) for b in raw):
+                raise ValueError('short read')
+            vals.append(_st.unpack('<' + c, bytes(raw))[0])
+            i += n
+    return vals, SymBytes(units[i:])
+
+
 class SerialPool:
     """model of multiprocessing.Pool for the symbolic run: `map` is order preserving and every task runs
     on a *copy* of its argument and returns a *copy* of its result (what pickling to / from a worker
@@ -641,6 +729,8 @@ def install_shims(modules):
         if hasattr(m, 'math'):
             m.math = ms
         m.print = lambda *a, **k: None
+        if getattr(m, 'struct', None) is not None and getattr(m.struct, '__name__', '') == 'struct':
+            m.struct = StructShim()
         if hasattr(m, 'pool_context'):
             m.pool_context = _serial_pool_context
         if hasattr(m, 'Pool'):
